@@ -240,7 +240,7 @@ class Tensor:
                         index = cffi_indexes[i_level][1][next_position]
                         yield from recurse(i_level + 1, (*prefix, index), next_position)
             else:
-                coordinate = tuple(prefix[mode_ordering[i]] for i in range(order))
+                coordinate = tuple(prefix[mode_ordering.index(i)] for i in range(order))
                 yield coordinate, cffi_values[position]
 
         yield from recurse(0, (), 0)
